@@ -22,8 +22,40 @@ pub fn sources(case: &str) -> (String, String) {
   (format!("{}{}{}", def, srcdef, zdef), format!("{} {} {}", target, opsym, srcexpr))
 }
 
+/// `aseq <kind> <matrix> (<sel1> <sel2|-> <op> <source> <srckind> <mode>)+`: several assignments to the same
+/// variable, one statement per interpret() call; observation `<ok|err>#<m afterwards>` per step, joined by `@`
+fn exec_seq(f: &Vec<&str>) -> String {
+  let def = operand_def("m", f[1], f[2], true);
+  let mut intrp = Interpreter::new(0);
+  let t1 = match parse_code(&def) { Ok(t) => t, Err(e) => return format!("harness:{}:{}", e, hexs(&def)) };
+  match std::panic::catch_unwind(std::panic::AssertUnwindSafe(|| intrp.interpret(&t1))) { Ok(Ok(_)) => {}, _ => return format!("harness:defs-failed:{}", hexs(&def)) }
+  let mut out = vec![];
+  for (i, st) in f[3..].chunks(6).enumerate() {
+    let (s1, s2, op, src, srck, mode) = (st[0], st[1], st[2], st[3], st[4], st[5]);
+    let vname = format!("v{}", i); let zname = format!("z{}", i);
+    let srcdef = operand_def(&vname, srck, src, false);
+    let zero = match srck { "bool" => "true".to_string(), "string" => "\"\"".to_string(), "r64" => "0/1".to_string(), "c64" => "0+0i".to_string(), "f64" | "f32" => "0.0".to_string(), _ => "0".to_string() };
+    let annot_needed = !(srck == "f64" || srck == "r64" || srck == "c64" || srck == "bool" || srck == "string");
+    let zdef = format!("{}{} := {}\n", zname, if annot_needed { format!("<{}>", srck) } else { String::new() }, zero);
+    let srcexpr = if mode == "var" { vname.clone() } else if srck == "bool" { format!("{} && {}", vname, zname) } else { format!("{} + {}", vname, zname) };
+    let target = if s2 == "-" { format!("m[{}]", sel_src(s1)) } else { format!("m[{},{}]", sel_src(s1), sel_src(s2)) };
+    let opsym = match op { "set" => "=", "add" => "+=", "sub" => "-=", "mul" => "*=", "div" => "/=", _ => "=" };
+    let defs = format!("{}{}", srcdef, zdef);
+    let td = match parse_code(&defs) { Ok(t) => t, Err(e) => return format!("harness:{}:{}", e, hexs(&defs)) };
+    match std::panic::catch_unwind(std::panic::AssertUnwindSafe(|| intrp.interpret(&td))) { Ok(Ok(_)) => {}, _ => return format!("harness:defs-failed:{}", hexs(&defs)) }
+    let stmt = format!("{} {} {}", target, opsym, srcexpr);
+    let ts = match parse_code(&stmt) { Ok(t) => t, Err(e) => return format!("harness:{}:{}", e, hexs(&stmt)) };
+    let status = match std::panic::catch_unwind(std::panic::AssertUnwindSafe(|| intrp.interpret(&ts))) { Ok(Ok(_)) => "ok", Ok(Err(_)) => "err", Err(_) => return "hostpanic".into() };
+    let t3 = parse_code("m").unwrap();
+    let after = match std::panic::catch_unwind(std::panic::AssertUnwindSafe(|| intrp.interpret(&t3))) { Ok(Ok(v)) => canon(&v), _ => "unreadable".to_string() };
+    out.push(format!("{}#{}", status, after));
+  }
+  out.join("@")
+}
+
 pub fn exec(case: &str) -> String {
   let f: Vec<&str> = case.split('\t').collect();
+  if f[0] == "aseq" { return exec_seq(&f); }
   let def = operand_def("m", f[1], f[2], true);
   let srcdef = operand_def("v", f[7], f[6], false);
   let target = if f[4] == "-" { format!("m[{}]", sel_src(f[3])) } else { format!("m[{},{}]", sel_src(f[3]), sel_src(f[4])) };
@@ -190,6 +222,34 @@ pub fn generate(seed: u64, thorough: bool, sink: &mut Sink) -> Vec<String> {
           }
         }
       }
+    }
+  }
+  // sequences of two to four assignments to the same variable, each a supported cell of that storage form and kind
+  if !explore {
+    let nseq = if thorough { 4000 } else { 400 };
+    for _ in 0..nseq {
+      let (rows, cols, _) = *rng.pick(SHAPES);
+      let form = form_name(rows, cols);
+      let kind = *rng.pick(NUM_KINDS);
+      let len = 2 + rng.below(3) as usize;
+      let mut steps: Vec<String> = vec![]; let mut first: Option<String> = None;
+      let mut tries = 0;
+      while steps.len() < len && tries < 60 {
+        tries += 1;
+        let op = *rng.pick(&["set", "set", "add", "sub", "mul"]);
+        let srcmode = *rng.pick(&["tmp", "var"]);
+        let c1 = *rng.pick(A_CLASSES);
+        let c2 = if rng.chance(1, 2) { "-" } else { *rng.pick(A_CLASSES) };
+        let srcform = if c2 == "-" && c1 != "s" && rng.chance(1, 2) { "V" } else { "S" };
+        let key = format!("{}|{}|{}|{}|{}|{}|{}", form, op, srcform, srcmode, c1, c2, kind);
+        if tab.get(&key).map(|s| s.as_str()) != Some("ok") { continue; }
+        if let Some(c) = make_case(rows, cols, op, srcform, srcmode, c1, c2, kind, "ok", "ok", &mut rng) {
+          let f: Vec<&str> = c.split('\t').collect();
+          if first.is_none() { first = Some(f[2].to_string()); }
+          steps.push(f[3..9].join("\t"));
+        }
+      }
+      if steps.len() >= 2 { cases.push(format!("aseq\t{}\t{}\t{}", kind, first.unwrap(), steps.join("\t"))); sink.hit(&format!("sequence:{}", steps.len())); }
     }
   }
   if !cases.is_empty() { sink.sample(cases[0].clone()); sink.sample(cases[cases.len() / 2].clone()); }
